@@ -72,11 +72,15 @@ func vhPemBlocks() {
 	vClockFixed(1709640000)
 	combo := vChoose("blocks", 8)
 	ctx := NewCertificateContext(nil, nil, time.Unix(1709640000, 0), time.Unix(1909640000, 0))
-	alg := []KeyAlgorithm{P256, RSA2048, BrainpoolP384r1}[vChoose("key", 3)]
+	algs := []KeyAlgorithm{P256, RSA2048, BrainpoolP384r1}
+	if vParam("ALLKEYS", 0) == 1 {
+		algs = []KeyAlgorithm{P256, RSA2048, BrainpoolP384r1, RSA1024, RSA4096, RSA8192, P224, P384, P521, BrainpoolP256r1, BrainpoolP512r1, BrainpoolP256t1, BrainpoolP384t1, BrainpoolP512t1}
+	}
+	alg := algs[vChoose("key", len(algs))]
 	vAssert(ctx.GeneratePrivateKey(alg) == nil, "key generation failed")
 	ctx.SerialNumber = big.NewInt(77)
 	sigAlg := ECDSAwithSHA256
-	if alg == RSA2048 {
+	if alg <= RSA8192 {
 		sigAlg = RSAwithSHA256
 	}
 	ctx.SetIssuer(AsIssuer(*ctx))
